@@ -636,7 +636,11 @@ func (x *executor) doWalk(i int, op *Op) error {
 		hx.Known(idSymStart, fmt.Sprintf("%s: %d leading elements exist locally, answered Rerror %q", what, k, r.Ename))
 		symRefused = true
 	case r.Type != ref9p.Rwalk:
-		return fmt.Errorf("%s: %d leading elements exist locally, want Rwalk with %d qids, got %s %q", what, k, k, ref9p.TypeName(r.Type), r.Ename)
+		note := ""
+		if fromSymlink {
+			note = " (the fid designates a symlink; the same names resolve when the symlink is an inner element of one Twalk)"
+		}
+		return fmt.Errorf("%s: %d leading elements exist locally, want Rwalk with %d qids, got %s %q%s", what, k, k, ref9p.TypeName(r.Type), r.Ename, note)
 	default:
 		if len(r.Wqid) != k {
 			return fmt.Errorf("%s: Rwalk carries %d qids, %d leading elements exist locally", what, len(r.Wqid), k)
